@@ -85,6 +85,10 @@ pub fn reason(status: u16) -> &'static str {
     match status {
         200 => "OK",
         201 => "Created",
+        202 => "Accepted",
+        300 => "Multiple Choices",
+        303 => "See Other",
+        307 => "Temporary Redirect",
         204 => "No Content",
         400 => "Bad Request",
         401 => "Unauthorized",
